@@ -5,8 +5,10 @@
     This file gives the terms a semantics and proves, about the regenerated terms and for EVERY
     execution, the facts the hand-written model assumes:
 
-      1. lock discipline: every machine trigger and every `pubsub.close()` happens while the
-         (single) lock is held, user code (the body of `run_session`) never runs under it, nobody
+      1. lock discipline: every machine trigger ISSUED BY A METHOD OF Imp OR Nextline (run, reset,
+         aopen, aclose -- the run task's own `finish` trigger in fsm/callback.py is outside the
+         lock by design and is not read here) and every `pubsub.close()` happens while the
+         (single) lock is held, no `asyncio.wait_for` timeout is armed around anything under it, user code (the body of `run_session`) never runs under it, nobody
          waits for the lock while holding it, the lock is free again at the end of every call,
          whatever raised;
       2. the API calls that take the lock are exactly those for which [Model.do_call] goes
@@ -25,8 +27,17 @@
     it decides the value.  "For every execution" = for every oracle [list bool] followed through
     the tree = for every leaf ([follow_in_leaves]); the trees of the regenerated terms are finite
     and the obligations are decided by computation over all their leaves.
-    Python semantics built in: `async with lock` releases on every exit; `try/finally` runs the
-    finally block and lets its own exception win; an asynccontextmanager's body runs at its
+      5. per-call refinement (section 5): on representative reachable states of the model, the
+         observations of EVERY execution of start/run/run_session/reset/close either equal those of
+         [Model.do_call]/[do_step] for that task, or leave them exactly at a decision the model takes
+         differently (trigger accepted/refused, state running or not), or contain a failure of the
+         environment (cancellation, a raising hook, a timeout) which the model does not have.
+
+    Python semantics built in (definitional, NOT proved from anything): `async with lock` releases on
+    every exit; `try/finally` runs the finally block and lets its own exception win; `try/except
+    BaseException` runs the handler on every exception (a cancellation or a timeout is an exception
+    raised at the await the task is suspended at); `wait_for(c, timeout)` = c, any await of which may
+    be the one the timeout cancels; an asynccontextmanager's body runs at its
     `yield`; asyncio.Lock is not re-entrant (taking it twice = [RBad]). *)
 From Coq Require Import String List Bool Arith Lia.
 From NL Require Import Life.ImpSyntax Gen.ImpSkeleton Life.Model Life.LockInv Life.Hist.
@@ -96,6 +107,7 @@ Inductive ev :=
 | ESet (f : flag) (v : bool)
 | EGuard (g : guard) (v : bool)
 | EEnter (o : obj) (m : string)
+| EWaitFor                           (* entering `asyncio.wait_for(..., timeout)`: from here a raise may be the timeout *)
 | EStuck.                            (* lock taken twice / unknown method / call depth exhausted *)
 
 Notation out := (res * cfg * list ev)%type.
@@ -152,6 +164,13 @@ Fixpoint sem (fuel : nat) : stmt -> cfg -> tree out :=
       bind (go a c) (fun x => let '(r, c1, tr) := x in
         bind (go b c1) (fun y => let '(r2, c2, tr2) := y in
           Leaf (match r2 with RNorm => r | _ => r2 end, c2, tr ++ tr2)))
+    | TryExcept a h =>
+      bind (go a c) (fun x => let '(r, c1, tr) := x in
+        match r with
+        | RExc => bind (go h c1) (fun y => let '(r2, c2, tr2) := y in Leaf (r2, c2, tr ++ tr2))
+        | _ => Leaf x
+        end)
+    | WaitFor b => tag EWaitFor (go b c)
     | ImpSyntax.Call ob m =>
       match fuel with
       | O => stuck c
@@ -235,7 +254,10 @@ Qed.
 Definition is_bad (r : res) : bool := match r with RBad => true | _ => false end.
 
 (** walks a trace with the lock status: acquisitions only when free, releases only when held,
-    triggers and pubsub closes only when held, user code only when free, free at the end *)
+    triggers and pubsub closes only when held, user code only when free, no wait_for timeout armed
+    while it is held, free at the end.  (That the lock is released when the body raises is the
+    meaning given to `async with` in [sem], i.e. Python's; what is PROVED is that nothing is done
+    outside it and that it is never nested.) *)
 Fixpoint lock_ok (held : bool) (t : list ev) : bool :=
   match t with
   | [] => negb held
@@ -245,6 +267,7 @@ Fixpoint lock_ok (held : bool) (t : list ev) : bool :=
   | ETrig _ _ :: r => held && lock_ok held r
   | EPubClose _ :: r => held && lock_ok held r
   | EYield _ :: r => negb held && lock_ok held r
+  | EWaitFor :: r => negb held && lock_ok held r
   | EStuck :: _ => false
   | _ :: r => lock_ok held r
   end.
@@ -528,7 +551,7 @@ Theorem close_order_agrees :
   model_holds 2 s_running close_ls_running = true /\ returned_ok 2 (run_labels s_running close_ls_running) = true /\
   model_holds 2 st_created close_ls_fresh = true /\ returned_ok 2 (run_labels st_created close_ls_fresh) = true /\
   st_fsm s_running = Running /\ st_fsm s_started = Initialized /\
-  (* spelled out *)
+  (* spelled out (a pin of the order, for the reader; the content is the equalities above) *)
   model_acts 2 s_running close_ls_running = [APubSubClose; AWaitRun; ATrigClose; APubSubClose; AContClose] /\
   model_acts 2 st_created close_ls_fresh = [AContStart; ATrigOpen; APubSubClose; ATrigClose; APubSubClose; AContClose].
 Proof. vm_compute. repeat split; reflexivity. Qed.
@@ -565,7 +588,8 @@ Proof.
   rewrite forallb_forall in H. apply H. apply follow_in_leaves.
 Qed.
 
-(** Imp.aopen: the synchronous `init` hook, then the trigger, both under the lock *)
+(** Imp.aopen: the synchronous `init` hook, then the trigger, both under the lock
+    (a PIN of the shape of the regenerated term: equality with a trace written by hand) *)
 Theorem aopen_shape :
   trace_of (exec OImp "aopen" false false []) =
     [EEnter OImp "aopen"; EAcq true; EHook false "init" true; ETrig TAopen true; ERel].
@@ -601,21 +625,26 @@ Fixpoint opened_first (opened : bool) (t : list ev) : bool :=
   | _ :: r => opened_first opened r
   end.
 
+Definition is_norm (r : res) : bool := match r with RNorm | RRet => true | _ => false end.
+
 Definition close_fresh_ok (x : out) : bool :=
-  opened_first false (trace_of x) && f_started (cfg_of x) && f_closed (cfg_of x).
+  opened_first false (trace_of x) && f_started (cfg_of x) && (negb (is_norm (res_of x)) || f_closed (cfg_of x)).
 
 Theorem close_starts_first : forall m, In m close_names -> forall o,
   let x := exec ONextline m false false o in
-  opened_first false (trace_of x) = true /\ f_started (cfg_of x) = true /\ f_closed (cfg_of x) = true.
+  opened_first false (trace_of x) = true /\ f_started (cfg_of x) = true /\
+  (is_norm (res_of x) = true -> f_closed (cfg_of x) = true).
 Proof.
   assert (H : forallb (fun m => forallb close_fresh_ok (leaves (run ONextline m false false))) close_names = true)
     by (vm_compute; reflexivity).
   intros m Hm o x. rewrite forallb_forall in H. specialize (H m Hm). rewrite forallb_forall in H.
-  specialize (H x (follow_in_leaves _ o)). unfold close_fresh_ok in H. rewrite !andb_true_iff in H. tauto.
+  specialize (H x (follow_in_leaves _ o)). unfold close_fresh_ok in H. rewrite !andb_true_iff in H.
+  destruct H as ((H1 & H2) & H3). repeat split; auto. intros Hn. rewrite Hn in H3. exact H3.
 Qed.
 
 (** the flag test and the flag assignments are in ONE atomic segment, as in [Model.do_call]:
-    no suspension point (await) comes before an assignment to `_started` / `_closed` *)
+    no suspension point (await) comes before an assignment of True to `_started` / `_closed`
+    (the only assignment of False is the one in the `except BaseException` handler of close()) *)
 Definition suspends (e : ev) : bool :=
   match e with
   | EAcq _ | ETrig _ _ | EPubClose _ | EWaitRun _ | EHook true _ _ | EAwait _ | ECont _ _ | EYield _ => true
@@ -625,7 +654,7 @@ Definition suspends (e : ev) : bool :=
 Fixpoint sets_atomic (susp : bool) (t : list ev) : bool :=
   match t with
   | [] => true
-  | ESet _ _ :: r => negb susp && sets_atomic susp r
+  | ESet _ true :: r => negb susp && sets_atomic susp r
   | e :: r => sets_atomic (susp || suspends e) r
   end.
 
@@ -637,26 +666,30 @@ Proof.
   exact (all_names_sound (fun x => sets_atomic false (trace_of x)) ONextline H).
 Qed.
 
-(** flags are only ever set to True, `_started` only by start(), `_closed` only by close() *)
-Fixpoint flag_sets (s : stmt) : list (flag * bool) :=
+(** `_started` is set (to True) only by start(), `_closed` only by close(); the only assignment of
+    False is `_closed = False` inside an `except BaseException` handler of close() *)
+Fixpoint flag_sets (handler : bool) (s : stmt) : list (flag * bool * bool) :=
   match s with
-  | SetFlag f v => [(f, v)]
-  | Seq a b | If _ a b | TryFinally a b => flag_sets a ++ flag_sets b
-  | WithLock a | WithCall _ _ a => flag_sets a
+  | SetFlag f v => [(f, v, handler)]
+  | Seq a b | If _ a b | TryFinally a b => flag_sets handler a ++ flag_sets handler b
+  | TryExcept a h => flag_sets handler a ++ flag_sets true h
+  | WithLock a | WithCall _ _ a | WaitFor a => flag_sets handler a
   | _ => []
   end.
 
 Definition flag_sets_ok (x : string * stmt) : bool :=
-  forallb (fun fv => snd fv && String.eqb (fst x) (match fst fv with FStarted => "start" | FClosed => "close" end))
-          (flag_sets (snd x)).
+  forallb (fun fvh : flag * bool * bool => let '(f, v, h) := fvh in
+             String.eqb (fst x) (match f with FStarted => "start" | FClosed => "close" end) &&
+             (if v then negb h else h && flag_eqb f FClosed))
+          (flag_sets false (snd x)).
 
 (** no method of Nextline touches the machine, the lock, the broker's close, the callback or a
     hook itself: it can reach them only by calling a method of Imp *)
 Fixpoint no_direct (s : stmt) : bool :=
   match s with
   | WithLock _ | Trigger _ | PubSubClose | WaitRunFinish | Hook _ _ => false
-  | Seq a b | If _ a b | TryFinally a b => no_direct a && no_direct b
-  | WithCall _ _ a => no_direct a
+  | Seq a b | If _ a b | TryFinally a b | TryExcept a b => no_direct a && no_direct b
+  | WithCall _ _ a | WaitFor a => no_direct a
   | _ => true
   end.
 
@@ -665,8 +698,8 @@ Fixpoint locked_text (inside : bool) (s : stmt) : bool :=
   match s with
   | Trigger _ | PubSubClose => inside
   | WithLock a => locked_text true a
-  | Seq a b | If _ a b | TryFinally a b => locked_text inside a && locked_text inside b
-  | WithCall _ _ a => locked_text inside a
+  | Seq a b | If _ a b | TryFinally a b | TryExcept a b => locked_text inside a && locked_text inside b
+  | WithCall _ _ a | WaitFor a => locked_text inside a
   | _ => true
   end.
 
@@ -679,7 +712,8 @@ Theorem nextline_reaches_machine_only_through_imp :
      [(FStarted, nl_started (init_state a b c d)); (FClosed, nl_closed (init_state a b c d))]).
 Proof. vm_compute. repeat split; reflexivity. Qed.
 
-(** the signal / command calls: one hook call, no lock (Model: CSignal, CSend) *)
+(** the signal / command calls: one hook call, no lock (Model: CSignal, CSend)
+    (a PIN of the shape of the regenerated terms) *)
 Theorem signal_calls_shape :
   map (fun m => trace_of (exec ONextline m true false []))
       ["interrupt"; "terminate"; "kill"; "send_pdb_command"]%string =
@@ -688,6 +722,360 @@ Theorem signal_calls_shape :
    [EEnter ONextline "kill"; EEnter OImp "kill"; EHook true "kill" true];
    [EEnter ONextline "send_pdb_command"; EEnter OImp "send_command"; EHook true "send_command" true]].
 Proof. vm_compute. reflexivity. Qed.
+
+(** ---- 4b. a close() that was cut, the timeout of `__aexit__` (fix 9ec32d9) ---- *)
+
+(** For every execution of close() / __aexit__() on an object with `_closed` False:
+    - nothing raised  <->  it returns normally, and then `_closed` is True;
+    - something raised (a refused trigger, a raising hook, a cancellation, the timeout of
+      `__aexit__`) <-> the exception propagates (it is not swallowed), and then `_closed` is False
+      again: the next close() is not a no-op but does the work again ([exec .. false ..] is the
+      full tree above);
+    - in both cases the lock is free. *)
+Definition close_outcome_ok (x : out) : bool :=
+  if existsb raised (trace_of x)
+  then (match res_of x with RExc => true | _ => false end) && negb (f_closed (cfg_of x))
+  else is_norm (res_of x) && f_closed (cfg_of x).
+
+Theorem cut_close_can_be_repeated : forall m, In m close_names -> forall st o,
+  let x := exec ONextline m st false o in
+  (existsb raised (trace_of x) = true -> res_of x = RExc /\ f_closed (cfg_of x) = false) /\
+  (existsb raised (trace_of x) = false -> is_norm (res_of x) = true /\ f_closed (cfg_of x) = true) /\
+  lk_held (cfg_of x) = false.
+Proof.
+  assert (H : forallb (fun m => forallb (fun st => forallb (fun x => close_outcome_ok x && negb (lk_held (cfg_of x)))
+                (leaves (run ONextline m st false))) bools) close_names = true) by (vm_compute; reflexivity).
+  intros m Hm st o x. rewrite forallb_forall in H. specialize (H m Hm).
+  rewrite forallb_forall in H. specialize (H st (in_bools st)). rewrite forallb_forall in H.
+  specialize (H x (follow_in_leaves _ o)). rewrite andb_true_iff, negb_true_iff in H. destruct H as (H & Hl).
+  unfold close_outcome_ok in H. split; [ | split; [ | exact Hl ] ]; intros E; rewrite E in H;
+    rewrite andb_true_iff in H; destruct H as (H1 & H2).
+  - split; [ destruct (res_of x); try discriminate; reflexivity | rewrite negb_true_iff in H2; exact H2 ].
+  - split; assumption.
+Qed.
+
+(** `asyncio.wait_for` occurs in one place only: Nextline.__aexit__ = wait_for(self.close(), timeout),
+    armed before anything else happens and outside the lock; no other method of Imp or Nextline
+    runs anything under a timeout (Life/Model.v has no timeouts: a close() waits for the run for
+    as long as it takes) *)
+Definition is_waitfor (e : ev) : bool := match e with EWaitFor => true | _ => false end.
+Definition waitfor_ok (m : string) (x : out) : bool :=
+  if String.eqb m "__aexit__"
+  then match trace_of x with
+       | EEnter ONextline _ :: EWaitFor :: EEnter ONextline c :: r => String.eqb c "close" && negb (existsb is_waitfor r)
+       | _ => false
+       end
+  else negb (existsb is_waitfor (trace_of x)).
+
+Theorem timeout_only_around_close_in_aexit :
+  (forall m, In m (names ONextline) -> forall st cl o, waitfor_ok m (exec ONextline m st cl o) = true) /\
+  (forall m, In m (names OImp) -> forall st cl o, existsb is_waitfor (trace_of (exec OImp m st cl o)) = false) /\
+  assoc "__aexit__"%string nextline_methods = Some (WaitFor (ImpSyntax.Call ONextline "close")).
+Proof.
+  assert (A : forallb (fun m => all_exec (waitfor_ok m) ONextline m) (names ONextline) = true) by (vm_compute; reflexivity).
+  assert (B : forallb (all_exec (fun x => negb (existsb is_waitfor (trace_of x))) OImp) (names OImp) = true)
+    by (vm_compute; reflexivity).
+  repeat split.
+  - intros m Hm. rewrite forallb_forall in A. apply all_exec_sound. apply A. exact Hm.
+  - intros m Hm st cl o. apply negb_true_iff.
+    exact (all_names_sound (fun x => negb (existsb is_waitfor (trace_of x))) OImp B m Hm st cl o).
+Qed.
+
+(** THE TIMEOUT FIRES while close() waits for the run (the script is busy / stopped at a prompt for
+    longer than `timeout_on_exit`): the wait is cancelled, the lock is released, the `close`
+    transition is never triggered, the TimeoutError leaves `__aexit__` (intended API:
+    tests/main/test_nextline.py::test_timeout; for C03 it stays the recorded finding "close() with
+    a run that does not end"), `_closed` is False again -- and a close() issued afterwards takes
+    the whole path again ([close_order_agrees]: state 'running' or, once the run has ended, not). *)
+Theorem aexit_timeout_while_waiting_for_the_run :
+  let x := exec ONextline "__aexit__" true false [false; false; true; true] in
+  res_of x = RExc /\ f_closed (cfg_of x) = false /\ lk_held (cfg_of x) = false /\
+  trace_of x = [EEnter ONextline "__aexit__"; EWaitFor; EEnter ONextline "close"; EGuard (GFlag FClosed) false;
+                ESet FClosed true; EEnter ONextline "start"; EGuard (GFlag FStarted) true;
+                EEnter OImp "aclose"; EAcq true; EPubClose true; EGuard (GStateIs "running") true;
+                EWaitRun false; ERel; ESet FClosed false] /\
+  happy ONextline "close" true (f_closed (cfg_of x)) true = [model_acts 2 s_running close_ls_running].
+Proof. vm_compute. repeat split; reflexivity. Qed.
+
+(** the `finally` of run_session is reached from every await of the protected body: whenever the
+    body of `async with run_session()` was entered, the wait for the end of the run is reached,
+    whether the body raised (cancellation included) or not *)
+Fixpoint wait_after_yield (yielded : bool) (t : list ev) : bool :=
+  match t with
+  | [] => negb yielded
+  | EYield _ :: r => wait_after_yield true r
+  | EWaitRun _ :: r => wait_after_yield false r
+  | _ :: r => wait_after_yield yielded r
+  end.
+
+Theorem run_session_finally_reached : forall m, In m session_names -> forall st cl o,
+  wait_after_yield false (trace_of (exec ONextline m st cl o)) = true.
+Proof.
+  assert (H : forallb (all_exec (fun x => wait_after_yield false (trace_of x)) ONextline) session_names = true)
+    by (vm_compute; reflexivity).
+  intros m Hm. rewrite forallb_forall in H. apply (all_exec_sound (fun x => wait_after_yield false (trace_of x))).
+  apply H. exact Hm.
+Qed.
+
+(** fsm/machine.py (a PIN of names): StateMachine.aopen / aclose are `await self.initialize()` /
+    `await self.close()`, and each transitions-callback awaits the Callback method the model's
+    comments name *)
+Theorem machine_wrappers_pin :
+  machine_wrappers = [("aclose", "close"); ("aopen", "initialize")]%string /\
+  machine_callbacks =
+    [("after_state_change", ["on_change_state"]); ("on_exit_created", ["start"]);
+     ("on_enter_initialized", ["initialize_run"]); ("on_enter_running", ["start_run"]);
+     ("on_close_while_running", ["wait_for_run_finish"]); ("on_enter_finished", ["finish"]);
+     ("on_exit_finished", ["on_exit_finished"]); ("on_enter_closed", ["close"]); ("on_reset", ["reset"])]%string.
+Proof. vm_compute. split; reflexivity. Qed.
+
+(** ---- 5. per-call refinement: the interpreter's executions against Model.do_call / do_step ----
+
+    Observations of ONE API call of ONE task (the alphabet both sides are projected to): *)
+Inductive oev :=
+| OFlag (f : flag)            (* `_started` / `_closed` goes False -> True *)
+| OContStart | OContClose     (* Continuous.start() / close() *)
+| OTrig (t : trig)            (* the transition is accepted and entered *)
+| ORefused                    (* the trigger raises MachineError *)
+| OPubClose                   (* pubsub.close() *)
+| OWait (locked : bool)       (* starts to wait for the end of the run, holding the lock or not *)
+| ORet (ok : bool).           (* the call returns / raises *)
+
+Definition oev_eqb (a b : oev) : bool :=
+  match a, b with
+  | OFlag f, OFlag g => flag_eqb f g
+  | OContStart, OContStart | OContClose, OContClose | ORefused, ORefused | OPubClose, OPubClose => true
+  | OTrig x, OTrig y => trig_eqb x y
+  | OWait x, OWait y | ORet x, ORet y => Bool.eqb x y
+  | _, _ => false
+  end.
+
+(** -- model side: task [t] alone, every hook gate released at once, the child exits when the call
+       waits for the run.  The events of a step are read off the model's own trace, flags, holder
+       and the pc of the task before / after it. *)
+Definition pc_in_trig (p : pc) : option trig :=
+  match p with
+  | S_G1 | S_G2 | S_G3 => Some TAopen
+  | R_WaitStarted | R_G => Some TRun
+  | Z_G1 | Z_G1b | Z_WaitRunTask | Z_G3 | Z_G4 => Some TReset
+  | C_WaitRunTask | C_G3 | C_G4 => Some TAclose      (* C_WaitRunFinished: the wait BEFORE the trigger *)
+  | _ => None
+  end.
+
+Definition opt_trig_eqb (a b : option trig) : bool :=
+  match a, b with Some x, Some y => trig_eqb x y | None, None => true | _, _ => false end.
+
+Definition wait_kind (p : option pc) : nat :=
+  match p with Some C_WaitRunFinished => 1 | Some P_WaitRunFinished => 2 | _ => 0 end.
+
+Definition holds (s : state) (t : nat) : bool :=
+  match holder s with Some h => Nat.eqb h t | None => false end.
+
+Definition oev_of_event (t : nat) (e : event) : list oev :=
+  match e with
+  | EvPub (PCont false) => [OContStart]
+  | EvPub PEndAll => [OPubClose]
+  | EvPub PEndCont => [OContClose]
+  | EvRet t' _ r =>
+    if Nat.eqb t t'
+    then (match r with RMachineError => [ORefused] | _ => [] end) ++ [ORet (match r with ROk => true | _ => false end)]
+    else []
+  | _ => []
+  end.
+
+Definition step_oevs (t : nat) (s s' : state) : list oev :=
+  (if negb (nl_closed s) && nl_closed s' then [OFlag FClosed] else []) ++
+  (if negb (nl_started s) && nl_started s' then [OFlag FStarted] else []) ++
+  flat_map (oev_of_event t) (appended s s') ++
+  (if negb (wait_kind (pc_of s' t) =? 0) && negb (wait_kind (pc_of s' t) =? wait_kind (pc_of s t))
+   then [OWait (holds s' t)] else []) ++
+  match pc_of s' t with
+  | Some p' =>
+    match pc_in_trig p' with
+    | Some tr => if opt_trig_eqb (match pc_of s t with Some p => pc_in_trig p | None => None end) (Some tr)
+                 then [] else [OTrig tr]
+    | None => []
+    end
+  | None => []
+  end.
+
+Definition env_round (s : state) (t : nat) : state :=
+  let s1 := if negb (wait_kind (pc_of s t) =? 0) && (0 <? alive s) then do_child_exit s OReturn else s in
+  Nat.iter 8 do_step_run s1.
+
+(** events are paired with the lifecycle state at the beginning of the atomic segment they are in *)
+Fixpoint drive (fuel t : nat) (s : state) : list (oev * fsm) * state :=
+  match fuel with
+  | O => ([], s)
+  | S f =>
+    match find_task (tasks s) t with
+    | None => ([], s)
+    | Some _ =>
+      let s1 := env_round s t in
+      let s2 := do_step s1 t in
+      let r := drive f t s2 in
+      (map (fun e => (e, st_fsm s1)) (step_oevs t s1 s2) ++ fst r, snd r)
+    end
+  end.
+
+Definition model_call (s : state) (t : nat) (c : call) : list (oev * fsm) * state :=
+  let s1 := do_call s t c in
+  let r := drive 30 t s1 in
+  (map (fun e => (e, st_fsm s)) (step_oevs t s s1) ++ fst r, snd r).
+
+(** -- code side: projection of a trace of the interpreter *)
+Inductive cev :=
+| CObs (e : oev)
+| CState (name : string) (v : bool)      (* the code asked `self._machine.state == name` and got v *)
+| CEnv.                                  (* an await failed for a reason the model does not have *)
+
+Fixpoint project (held : bool) (t : list ev) : list cev :=
+  match t with
+  | [] => []
+  | EAcq true :: r => project true r
+  | EAcq false :: _ => [CEnv]
+  | ERel :: r => project false r
+  | ESet f true :: r => CObs (OFlag f) :: project held r
+  | ECont m true :: r =>
+    (if String.eqb m "start" then [CObs OContStart] else if String.eqb m "close" then [CObs OContClose] else [])
+    ++ project held r
+  | ETrig tr true :: r => CObs (OTrig tr) :: project held r
+  | ETrig _ false :: r => CObs ORefused :: project held r
+  | EPubClose true :: r => CObs OPubClose :: project held r
+  | EWaitRun true :: r => CObs (OWait held) :: project held r
+  | EGuard (GStateIs x) v :: r => CState x v :: project held r
+  | ECont _ false :: _ | EPubClose false :: _ | EWaitRun false :: _ | EHook _ _ false :: _
+  | EAwait false :: _ | EYield false :: _ | EStuck :: _ => [CEnv]
+  | _ :: r => project held r
+  end.
+
+Definition code_obs (x : out) : list cev :=
+  project false (trace_of x) ++ [CObs (ORet (is_norm (res_of x)))].
+
+Definition fsm_name (f : fsm) : string :=
+  match f with
+  | Created => "created" | Initialized => "initialized" | Running => "running"
+  | Finished => "finished" | Closed => "closed"
+  end.
+
+Inductive verdict :=
+| VEqual       (* the same observations, in the same order, to the end *)
+| VDecision    (* equal up to a decision (trigger accepted / refused, state is / is not x) that the model,
+                  in the state it is in at that moment, takes the other way: not an execution in THIS state *)
+| VEnv         (* equal up to an await that fails for an outside reason: cancellation, raising hook, timeout *)
+| VMismatch.   (* the code does something the model does not *)
+
+Definition trig_outcome (e : oev) : option bool :=
+  match e with OTrig _ => Some true | ORefused => Some false | _ => None end.
+
+Fixpoint cmp (cur : fsm) (c : list cev) (m : list (oev * fsm)) : verdict :=
+  match c with
+  | [] => match m with [] => VEqual | _ :: _ => VMismatch end
+  | CEnv :: _ => VEnv
+  | CState x v :: r =>
+    let st := match m with (_, b) :: _ => b | [] => cur end in
+    if Bool.eqb v (String.eqb (fsm_name st) x) then cmp cur r m else VDecision
+  | CObs e :: r =>
+    match m with
+    | [] => VMismatch
+    | (e', b) :: m' =>
+      if oev_eqb e e' then cmp b r m'
+      else match trig_outcome e, trig_outcome e' with
+           | Some x, Some y => if Bool.eqb x y then VMismatch else VDecision
+           | _, _ => VMismatch
+           end
+    end
+  end.
+
+(** representative reachable states with the lock free: every lifecycle state, and for
+    'finished' both "the run task is gone" and "the run task still sits in its on_finished hooks" *)
+Definition finished_ls : list label := running_ls ++ [ChildExit OReturn; StepRun; StepRun; StepRun; StepRun].
+Definition finishing_ls : list label := running_ls ++ [ChildExit OReturn; StepRun; StepRun].
+Definition reset_ls : list label :=
+  finished_ls ++ [Model.Call 1 (CReset (mkOpts (Some 5%Z) (Some 9%Z) None None)); Step 1; Step 1; Step 1; Step 1; Step 1].
+
+Definition ref_states : list state :=
+  [st_created; s_started; s_running; run_labels st_created finishing_ls; run_labels st_created finished_ls;
+   run_labels st_created reset_ls; s_closed].
+
+Definition ref_calls : list call :=
+  [CStart; CRun; CRunSession; CReset (mkOpts None None None None);
+   CReset (mkOpts (Some 3%Z) (Some 7%Z) (Some true) None); CClose].
+
+Definition is_equal (v : verdict) : bool := match v with VEqual => true | _ => false end.
+Definition is_mismatch (v : verdict) : bool := match v with VMismatch => true | _ => false end.
+
+Definition verdict_of (s : state) (c : call) (x : out) : verdict :=
+  cmp (st_fsm s) (code_obs x) (fst (model_call s 5 c)).
+
+(** for an execution with equal observations also the flags agree at the end and the lock is free *)
+Definition end_agrees (s : state) (c : call) (x : out) : bool :=
+  let sf := snd (model_call s 5 c) in
+  Bool.eqb (f_started (cfg_of x)) (nl_started sf) && Bool.eqb (f_closed (cfg_of x)) (nl_closed sf) &&
+  negb (lk_held (cfg_of x)) && negb (holds sf 5) &&
+  match find_task (tasks sf) 5 with None => true | Some _ => false end.
+
+Definition refines (s : state) (c : call) (m : string) : bool :=
+  let lv := leaves (run ONextline m (nl_started s) (nl_closed s)) in
+  forallb (fun x => negb (is_mismatch (verdict_of s c x)) &&
+                    (negb (is_equal (verdict_of s c x)) || end_agrees s c x)) lv &&
+  existsb (fun x => is_equal (verdict_of s c x)) lv.
+
+Lemma refinement_check :
+  forallb (fun s => forallb (fun c => forallb (refines s c) (nl_methods_of c)) ref_calls) ref_states = true.
+Proof. vm_compute. reflexivity. Qed.
+
+(** the states are what they are said to be; the lock is free and task 5 is idle in each *)
+Lemma ref_states_are :
+  map st_fsm ref_states = [Created; Initialized; Running; Finished; Finished; Initialized; Closed] /\
+  map runt ref_states = [None; None; Some RT_WaitChild; Some RT_G_fin; None; None; None] /\
+  forallb (fun s => match holder s, find_task (tasks s) 5 with None, None => true | _, _ => false end) ref_states = true.
+Proof. vm_compute. repeat split; reflexivity. Qed.
+
+(** PER-CALL REFINEMENT.  In each of these states, for start / run / run_session / reset / close
+    (and `async with`: __aenter__, __aexit__), EVERY execution of the regenerated code (every
+    oracle) is one of: the model's own behaviour for that call ([VEqual]: same flags set, same
+    Continuous calls, same trigger accepted or refused, same pubsub closes, same wait with the same
+    lock status, same return/raise, in the same order; and the same flags and a free lock at the
+    end); or it leaves the model's behaviour exactly at a decision the model takes the other way
+    in that state; or at a failure of the environment.  It never does anything else, and the
+    model's behaviour IS one of the executions.
+    Scope: one call of one task from a state in which the lock is free, on the seven states
+    above (by computation), hook gates released at once; queueing for a busy lock is
+    [lock_set_agrees] + Life/LockInv.v; interleavings of several calls are the model's business. *)
+Theorem call_refinement : forall s c m, In s ref_states -> In c ref_calls -> In m (nl_methods_of c) ->
+  (forall o, let x := exec ONextline m (nl_started s) (nl_closed s) o in
+     verdict_of s c x <> VMismatch /\ (verdict_of s c x = VEqual -> end_agrees s c x = true)) /\
+  (exists o, verdict_of s c (exec ONextline m (nl_started s) (nl_closed s) o) = VEqual).
+Proof.
+  intros s c m Hs Hc Hm. pose proof refinement_check as H.
+  rewrite forallb_forall in H. specialize (H s Hs). rewrite forallb_forall in H. specialize (H c Hc).
+  rewrite forallb_forall in H. specialize (H m Hm). unfold refines in H. rewrite andb_true_iff in H.
+  destruct H as (Hall & Hex). split.
+  - intros o x. rewrite forallb_forall in Hall. specialize (Hall x (follow_in_leaves _ o)).
+    rewrite andb_true_iff in Hall. destruct Hall as (H1 & H2). split.
+    + intros E. rewrite E in H1. discriminate.
+    + intros E. rewrite E in H2. exact H2.
+  - rewrite existsb_exists in Hex. destruct Hex as (x & Hin & Hx).
+    assert (Hf : forall (t : tree out) y, In y (leaves t) -> exists o, follow t o = y).
+    { induction t as [a | n IHn y' IHy]; simpl; intros y Hy.
+      - destruct Hy as [<- | []]. exists []. reflexivity.
+      - apply in_app_or in Hy. destruct Hy as [Hy | Hy].
+        + destruct (IHn _ Hy) as (o & Ho). exists (false :: o). exact Ho.
+        + destruct (IHy _ Hy) as (o & Ho). exists (true :: o). exact Ho. }
+    destruct (Hf _ _ Hin) as (o & Ho). exists o. unfold exec. rewrite Ho.
+    destruct (verdict_of s c x); try discriminate. reflexivity.
+Qed.
+
+(** what the observations look like (non-vacuity): close() while the run is in progress *)
+Example model_call_close_running :
+  map fst (fst (model_call s_running 5 CClose)) =
+  [OFlag FClosed; OPubClose; OWait true; OTrig TAclose; OPubClose; OContClose; ORet true] /\
+  map fst (fst (model_call s_running 5 CRun)) = [ORefused; ORet false] /\
+  map fst (fst (model_call st_created 5 CClose)) =
+  [OFlag FClosed; OFlag FStarted; OContStart; OTrig TAopen; OPubClose; OTrig TAclose; OPubClose; OContClose; ORet true] /\
+  map fst (fst (model_call s_started 5 CRunSession)) = [OTrig TRun; OWait false; ORet true].
+Proof. vm_compute. repeat split; reflexivity. Qed.
 
 (** ---- a look at the interpreter (non-vacuity) ---- *)
 Example exec_close_fresh_happy :
@@ -699,15 +1087,15 @@ Example exec_close_fresh_happy :
    EPubClose true; ERel; ECont "close" true].
 Proof. vm_compute. reflexivity. Qed.
 
-(** the `close` trigger raises (oracle: 7 awaits return, state not running, the 8th raises):
-    the lock is released, Continuous.close() is not reached *)
+(** the `close` trigger raises: the lock is released, Continuous.close() is not reached, the handler
+    of close() resets `_closed` *)
 Example exec_close_trigger_raises :
   let x := exec ONextline "close" true false [false; false; false; true] in
   res_of x = RExc /\
   trace_of x = [EEnter ONextline "close"; EGuard (GFlag FClosed) false; ESet FClosed true;
                 EEnter ONextline "start"; EGuard (GFlag FStarted) true;
                 EEnter OImp "aclose"; EAcq true; EPubClose true; EGuard (GStateIs "running") false;
-                ETrig TAclose false; ERel].
+                ETrig TAclose false; ERel; ESet FClosed false].
 Proof. vm_compute. split; reflexivity. Qed.
 
 Example exec_run_session_body_raises :
